@@ -253,6 +253,17 @@ def holdsC14 (c : Case) (o : Obs) : Bool :=
        else if call == "get" && r.startsWith "row:" then r == s!"row:{k}" && chk rest k
        else chk rest k
    chk pairs 0) &&
+  -- a row made current by a successful Next stays available to Get until the next
+  -- Next or Close, whatever failed Gets happen in between (no cancellation in play)
+  (c.cancelAt.isSome ||
+   (let rec live : List (String × String) → Nat → Bool → Bool
+      | [], _, _ => true
+      | (call, r) :: rest, k, cur =>
+        if call == "next" then live rest (if r == "true" then k + 1 else k) (r == "true")
+        else if call == "close" then live rest k false
+        else if call == "get" && cur && some (k - 1) != c.badRow then r == s!"row:{k}" && live rest k cur
+        else live rest k cur
+    live pairs 0 false)) &&
   -- Get before the first Next/Close is an error unless it fetches the Outcome
   (match pairs.head? with
    | some ("get", r) => !r.startsWith "row:"
